@@ -350,12 +350,33 @@ def write_evidence(prop, tier, seed, total, known, new, mod, extra=None):
     return path
 
 
+def verify_replay(prop, path):
+    """Replay the file in a fresh interpreter; True iff it reports the same signature and event-log digest."""
+    import subprocess
+
+    try:
+        doc = json.load(open(path))
+    except Exception:  # noqa: BLE001
+        return None
+    if "decisions" not in doc or "spec" not in doc:
+        return None  # not a seeded run (e.g. a real-pool report)
+    try:
+        p = subprocess.run([os.path.join(VERIF, "check"), prop, "--replay", path], capture_output=True, text=True, timeout=600)
+    except Exception:  # noqa: BLE001
+        return False
+    return p.returncode == 1 and "reproduces_recorded=True" in p.stdout
+
+
 def finish(prop, known, new, total) -> int:
     for sig, k in sorted(known.items()):
         print(f"KNOWN-FINDING: property={prop} {sig} — {k['entry'].get('what_fails', '')} (seen {k['count']}x)")
     for v in new:
         print(f"VIOLATION property={prop} replay={v['replay']}")
         print(f"  signature={v['signature']} detail={v['detail'][:300]}")
+        ok = verify_replay(prop, v["replay"])
+        if ok is not None:
+            v["replay_verified_in_fresh_interpreter"] = ok
+            print(f"  replay in a fresh interpreter reproduces the recorded run exactly: {'yes' if ok else 'NO'}")
     if total["harness_errors"]:
         for h in total["harness_errors"][:5]:
             print(f"HARNESS-ERROR property={prop} run={h.get('run')} seed={h.get('seed')}: {str(h.get('error'))[-600:]}", file=sys.stdout)
